@@ -1,6 +1,7 @@
 import HC.Proofs.Verify
 import HC.Proofs.VerifyTotal
 import HC.Proofs.ApplyTotal
+import HC.Proofs.PeerSafe
 import HC.Props.C05
 /-!
 # C09 — no request or proof from a peer can panic the node
@@ -34,10 +35,16 @@ also a panic: it means non-termination).
   because the changeset `verify_proof` returns keeps `ancestors` and the original length of the tree's own
   changeset (`verify_proof_keeps`).
 
+* **`peer_never_panics`** : the induction is closed on the replica side.  `RootShape` survives
+  `verify_and_apply_proof` of **every** proof — refused, failing or accepted (`PeerSafe.shape_step`: an accepted
+  upgrade adopts roots whose positions are those of a prefix the writer signed, by `C04.sound_upgrade`) — so after
+  *any sequence of arbitrary proofs* the next proof and the next request are again answered without panic.
+  Assumptions, all explicit: no collision of the root-list hash, the key verifies only what the writer signed and
+  the writer signs only heads of prefixes of its log (`PeerSafe.World`), and lengths are `u64` values (`U64Run`).
+
 `verify_tree_total_partial` keeps its name (the evidence refers to it); it is total.  What the theorems do not
 cover: `u64` arithmetic overflow (the model computes in `Nat`; requests with fields ≥ 2^63 do overflow in the
-Rust, outside the property's 2^40 bound) and `RootShape` after an *arbitrary accepted* proof on a replica (it is
-shown for writers and for honest exchanges); both are exercised by the correspondence run (arbitrary request
+Rust, outside the property's 2^40 bound); it is exercised by the correspondence run (arbitrary request
 tuples at boundary values and inside the log, the C04 alteration set, added sections and arbitrary proofs under
 `catch_unwind` with a watchdog; the model's outcome class is compared).
 -/
@@ -113,5 +120,22 @@ theorem serve_on_synced_replica (C : Crypto) (hC : TreeStore.HashWF C) (bs : Arr
 
 /-- non-vacuity: the empty tree has the shape -/
 example : CreateTotal.RootShape {} := ApplyTotal.rootShape_empty
+
+/-- **a replica stays servable whatever it is sent**: after any sequence of arbitrary proofs, the next proof and
+    the next request are answered without panic -/
+theorem peer_never_panics (C : Crypto) (bs : Array Bytes) (wfork : Nat) (hnc : ¬ Sound.TreeCollision C) (c : Core) (d : Disk)
+    (hW : PeerSafe.World C bs wfork c.publicKey) (hT : CreateTotal.RootShape c.tree) (hf : c.tree.fork < 2 ^ 64)
+    (ps : List Proof) (hu : PeerSafe.U64Run C (c, d) ps) (q : Proof)
+    (block hash : Option RequestBlock) (seek : Option RequestSeek) (upgrade : Option RequestUpgrade)
+    (hb : ∀ b, block = some b → b.index < 2 ^ 63) (hh : ∀ h, hash = some h → h.index < 2 ^ 65 - 1) :
+    ((PeerSafe.after C (c, d) ps).1.verifyAndApply C (PeerSafe.after C (c, d) ps).2 q).result ≠ .error .panic
+      ∧ ((PeerSafe.after C (c, d) ps).1.createProof (PeerSafe.after C (c, d) ps).2 block hash seek upgrade).result ≠ .error .panic := by
+  obtain ⟨h1, _, _⟩ := PeerSafe.shape_after C bs wfork hnc ps c d hW hT hf hu
+  exact ⟨verify_and_apply_total C _ _ h1 q, create_proof_total _ _ h1 block hash seek upgrade hb hh⟩
+
+/-- non-vacuity of `World`: a key under which nothing verifies -/
+example (C : Crypto) (hv : ∀ pk m s, C.verify pk m s = false) (hl : ∀ x, (C.tree x).length = 32) (pk : Bytes) :
+    PeerSafe.World C #[] 0 pk :=
+  ⟨⟨fun _ => False, (fun m sig h => by rw [hv] at h; cases h), (fun m h => False.elim h)⟩, hl, by decide, by decide⟩
 
 end HC.C09
